@@ -117,6 +117,15 @@ def materialise(root, entries):
                     f.write(file_bytes(e))
             os.chmod(p, e.get("mode", 0o644))
             os.utime(p, (e["mtime"], e["mtime"]))
+        elif k == "z":
+            write_zip(p, e.get("members", []), e.get("compress", False))
+            os.chmod(p, e.get("mode", 0o644))
+            os.utime(p, (e["mtime"], e["mtime"]))
+        elif k == "raw":
+            with open(p, "wb") as f:
+                f.write(e["content"])
+            os.chmod(p, e.get("mode", 0o644))
+            os.utime(p, (e["mtime"], e["mtime"]))
         elif k == "l":
             os.symlink(e["target"], p)
             try:
@@ -141,6 +150,50 @@ def materialise(root, entries):
         p = os.path.join(root, e["path"])
         os.chmod(p, e.get("mode", 0o755))
         os.utime(p, (e["mtime"], e["mtime"]))
+
+
+def write_zip(path, members, compress=False):
+    """members: dicts name, data(bytes) or size, mode (unix mode incl. type bits, optional), date (6-tuple), isdir"""
+    import zipfile
+    with zipfile.ZipFile(path, "w", zipfile.ZIP_DEFLATED if compress else zipfile.ZIP_STORED) as z:
+        for m in members:
+            zi = zipfile.ZipInfo(m["name"], date_time=tuple(m.get("date", (2020, 1, 2, 3, 4, 6))))
+            if m.get("mode") is not None:
+                zi.create_system = 3
+                zi.external_attr = (m["mode"] & 0xFFFF) << 16
+            else:
+                zi.create_system = 0
+                zi.external_attr = 0
+            data = m.get("data")
+            if data is None:
+                data = b"x" * m.get("size", 0)
+            if m["name"].endswith("/"):
+                data = b""
+            zi.compress_type = zipfile.ZIP_DEFLATED if compress else zipfile.ZIP_STORED
+            z.writestr(zi, data)
+
+
+def gen_zip_members(rng, n):
+    out = []
+    used = set()
+    dirs = [""]
+    for i in range(n):
+        d = rng.choice(dirs)
+        base = rng.choice(["a", "b", "c", "doc", "x1", "read me", "é", ".hid", "lib"]) + rng.choice(["", ".txt", ".log", ".rs", ".TXT"])
+        name = d + base
+        if name in used:
+            name = d + "m%d.txt" % i
+        used.add(name)
+        if rng.chance(1, 5):
+            name += "/"
+            dirs.append(name)
+            out.append({"name": name, "size": 0, "mode": rng.choice([0o40755, 0o40700, None]),
+                        "date": (rng.choice([1999, 2020, 2024]), rng.range(1, 12), rng.range(1, 28), rng.below(24), rng.below(60), rng.below(30) * 2)})
+        else:
+            out.append({"name": name, "size": rng.choice([0, 1, 5, 10, 100, 1024]),
+                        "mode": rng.choice([0o100644, 0o100755, 0o100600, 0o104755, 0o120777, None]),
+                        "date": (rng.choice([1999, 2020, 2024]), rng.range(1, 12), rng.range(1, 28), rng.below(24), rng.below(60), rng.below(30) * 2)})
+    return out
 
 
 KIND_OF = {stat.S_IFREG: "f", stat.S_IFDIR: "d", stat.S_IFLNK: "l", stat.S_IFIFO: "p", stat.S_IFSOCK: "s",
@@ -233,7 +286,18 @@ def read_zip(path):
         with zipfile.ZipFile(path) as z:
             out = []
             for i in z.infolist():
-                mode = (i.external_attr >> 16) if i.create_system == 3 and (i.external_attr >> 16) != 0 else None
+                # zip crate `unix_mode()`: None for external_attributes == 0; Unix: high 16 bits; DOS: derived
+                # from the directory / read-only bits; other systems: None
+                if i.external_attr == 0:
+                    mode = None
+                elif i.create_system == 3:
+                    mode = i.external_attr >> 16
+                elif i.create_system == 0:
+                    mode = (0o40775 if (i.external_attr & 0x10) else 0o100664)
+                    if i.external_attr & 0x01:
+                        mode &= 0o555
+                else:
+                    mode = None
                 out.append({"name": i.filename, "size": i.file_size, "mode": mode, "date": list(i.date_time)})
             return out
     except Exception:
